@@ -98,6 +98,15 @@ fn gen_param(r: &mut Rng, shape: usize, own: &str) -> String {
 
 /// one grammar-generated line: returns (line bytes, coverage label)
 fn gen_line(r: &mut Rng, own: &str) -> (Vec<u8>, String) {
+    if r.chance(1, 50) {
+        // channel MODE strings whose letters run out of parameters (or get too many) at every position
+        let l = [
+            "MODE #mix +q", "MODE #mix -a", "MODE #mix +i-q", "MODE #mix +v-a by1", "MODE #mix +o", "MODE #mix +h", "MODE #mix +l", "MODE #mix +k", "MODE #mix -v",
+            "MODE #by +q", "MODE #mix +qaohv fz", "MODE #mix +b", "MODE #mix +e", "MODE #mix +I", "MODE #mix -l 5", "MODE #mix -k x y", "MODE #solo +a", "MODE &loc -q",
+            "MODE #mix + -", "MODE #mix +t+q", "MODE #mix -o+a fz",
+        ][r.below(21)];
+        return (l.as_bytes().to_vec(), format!("MODE/arity/{}", l.split(' ').nth(2).unwrap_or("")));
+    }
     let unknown = r.chance(1, 40);
     let (verb, maxar) = if unknown { ("FROB", 2) } else { *r.pick(VERBS) };
     let arity = r.below(maxar + 3);
